@@ -190,6 +190,9 @@ type Chain struct {
 	divergences     []string
 	Absent          map[common.ValidatorIndex]bool
 	SlotSteps       []HonestSlots
+	prevEff         []common.Gwei
+	rejections      int
+	runErr          error
 	Eth1HalfPattern bool
 	halfY           common.Eth1Data
 	halfPeriod      int
@@ -206,6 +209,8 @@ type HonestStep struct {
 	BlkID  string
 	Engine string
 	Line   int
+	// Rejected: zrnt did not accept this block (kept as a seed for the derived streams)
+	Rejected bool
 }
 
 func (c *Chain) Slot() common.Slot {
